@@ -302,6 +302,8 @@ def run(ctx):
     import props.C11_italics as IT
     SP.prove_span_balance(ctx)
     IT.prove_passes(ctx)
+    import props.C05_captions as CP
+    CP.prove_captions(ctx)
     import props.C03_lines as LN
     LN.prove_cue_lines(ctx)
     ctx.bounded("scc_italics", "every sequence of up to 5 (thorough: 6) instruction nodes over {text, italics on, italics off, "
